@@ -304,10 +304,18 @@ fn capped(cfg: &Cfg, rep: &mut Report, h: u64) {
         rep.check("cap", ts <= cap, "C16/cap/fungible-capped/mint/supply-above-cap", || format!("after mint {a} -> {got:?}: total_supply {ts} > cap {cap}"));
         rep.check("ref", got.is_ok() == want, "C16/ref/fungible-capped/mint/outcome", || format!("mint {a} with supply {supply}, cap {cap}: expected ok={want}, got {got:?}"));
         if got.is_ok() {
-            supply = ts;
+            // the supply is what the successful mints add up to (sum of balances), not what the token reports
+            if want {
+                supply += a;
+            } else {
+                supply = ts;
+            }
+            rep.check("cap", ts == supply, "C16/cap/fungible-capped/mint/supply-differs-from-minted", || format!("after a successful mint of {a}: total_supply {ts}, successful mints add up to {supply}"));
         } else {
             rep.check("res", ts == supply, "C16/res/fungible-capped/mint/refused-mint-changed-supply", || format!("supply {supply} -> {ts}"));
         }
+        let bsum: i128 = (0..3).map(|i| invoke::<i128>(e, &c, "balance", args!(e, u[i])).must("balance")).sum();
+        rep.check("cap", bsum <= cap && bsum == supply, "C16/cap/fungible-capped/mint/balances-above-cap-or-off-supply", || format!("after mint {a} -> {got:?}: balances add up to {bsum}, supply model {supply}, cap {cap}"));
     }
     rep.end_history();
 }
